@@ -17,6 +17,8 @@
 import Shm.Props.C16
 import Shm.Lemmas.ModesLemmas
 import Shm.Model.Wrap
+import Shm.Lemmas.PureThms
+import Shm.Pure.Config
 namespace Shm.C17
 open Shm Shm.Store Shm.Crypto
 
@@ -141,3 +143,26 @@ theorem C17_unwrap_empty_refused (mech : Nat) (p : MParam) (kek : Bytes) : ∃ r
       · exact ⟨_, rfl⟩
 
 end Shm.C17
+
+/-! ### the remaining byte-level readers never hand out more than they were given (unit-tied definitions of Shm/Pure) -/
+namespace Shm.Pure
+open Shm
+
+/-- **`chainDeserialise` on ANY bytes** (a damaged blob, a length field of 2^64 - 1): value and remainder together are exactly the input behind the 8 header bytes -
+    never a byte that was not there -/
+theorem C17_chainDeserialise_bounded (s : Bytes) : (chainDeserialise s).1.length + (chainDeserialise s).2.length = s.length - 8 := chainDeserialise_bounded s
+
+/-- `ByteString::substr` never reads past the end, whatever start and length are asked for -/
+theorem C17_substr_bounded (b : Bytes) (start len : Nat) : (substr b start len).length ≤ len ∧ (substr b start len).length ≤ b.length - start := substr_bounded b start len
+
+/-- `DERUTIL::octet2Raw` on ANY bytes returns a suffix of its input (the empty string for everything malformed) -/
+theorem C17_octet2Raw_suffix (r : Bytes) : ∃ k, octet2Raw r = r.drop k := by
+  have hnil : ∀ x : Bytes, ([] : Bytes) = x.drop x.length := by intro x; simp
+  unfold octet2Raw
+  split
+  · dsimp only
+    repeat' split
+    all_goals first | exact ⟨_, rfl⟩ | exact ⟨_, hnil _⟩
+  · exact ⟨_, hnil _⟩
+
+end Shm.Pure
